@@ -60,21 +60,13 @@ func builtInSendProp(
 		return err
 	}
 
-	// (recv, args_for_call...)
-	argsToPass := []object.PanObject{obj}
+	argsToPass := []object.PanObject{}
 	if isMissing {
 		// `_missing` receives prop name
 		argsToPass = append(argsToPass, propName)
 	}
 	argsToPass = append(argsToPass, args[3:]...)
 
-	switch f := prop.(type) {
-	case *object.PanFunc:
-		return evalPanFuncCall(f, env, kwargs, argsToPass...)
-	case *object.PanBuiltIn:
-		return f.Fn(env, kwargs, argsToPass...)
-	default:
-		// not callable
-		return prop
-	}
+	// NOTE: same as prop call (recv is prepended, iters and non-callable props are not called)
+	return evalCall(env, obj, prop, argsToPass, kwargs)
 }
